@@ -96,7 +96,7 @@ class ConnSem(Semantics):
         return state
 
 
-def run(ctx):
+def _run_structural(ctx):
     idx = ctx.index
     info = scheduler_info(ctx)
     from ..inline import inlined
@@ -444,3 +444,30 @@ def rule_no_shared_lock_across_client_io(ctx, r):
     if not bad:
         r.ok(f"src/gwf/backends/local.py::Server", f"{n_regions} region(s) holding a shared synchronisation object; none spans a client-paced await (drain/read/wait_closed)",
              idx.cls(f"{LOCAL}:Server").where)
+
+
+def run(ctx):
+    """Structural rules first; the connection handler, the client and enqueue_task evaluated on recorded sessions decide where the
+    structural rules do not recognise the shape (dispatch tables, helper methods, constants for the message kinds)."""
+    from ..loader import AnalysisError
+    from .evalhelpers import cached_witness, server_session_witness, local_client_witness, eval_enqueue
+    ws = cached_witness(ctx, "server-session", server_session_witness)
+    wc = cached_witness(ctx, "local-client", local_client_witness)
+    enq, _m = eval_enqueue(ctx)
+    enq_ok = "error" not in enq and enq.get("ret") == 7 and 7 in enq.get("tasks", {}) and len(enq.get("started", [])) == 1
+    we = (1, [], None if enq_ok else "enqueue_task not evaluable or not registering")
+    n0 = len(ctx.rules)
+    try:
+        _run_structural(ctx)
+    except (AnalysisError, Exception) as exc:
+        if any(w[2] is not None or w[1] for w in (ws, wc, we)):
+            raise
+        r0 = ctx.rule("R0", "the structural rules cannot follow this shape of the pool server; decided by evaluated sessions")
+        r0.info("src/gwf/backends/local.py::Server", f"structural analysis stopped: {type(exc).__name__}: {str(exc)[:120]}")
+        for r in ctx.rules[n0:]:
+            r.min_instances = 0
+    rules = ctx.rules[n0:]
+    ctx.reconcile(rules, lambda c: "Server.handle_connection" in c or "Server.start_server" in c, (ws[0], [], ws[2]), "src/gwf/backends/local.py::Server.handle_connection", "src/gwf/backends/local.py:1")
+    ctx.reconcile(rules, lambda c: "::Client." in c, (wc[0], [], wc[2]), "src/gwf/backends/local.py::Client", "src/gwf/backends/local.py:1")
+    ctx.reconcile(rules, lambda c: c.endswith("Scheduler.enqueue_task") or "enqueue_task::id" in c or "enqueue_task::registers" in c, we, "src/gwf/backends/local.py::Scheduler.enqueue_task",
+                  "src/gwf/backends/local.py:1")
